@@ -400,7 +400,7 @@ impl ThunkData {
 /// value block, like most other values. A pointer to those data is thus precisely a `NickelValue`.
 /// [Thunk] is a smart constructor for a value for which we know for sure it contains a thunk
 /// (which makes it possible to perform most operations bypassing checks).
-#[derive(Clone, Debug, PartialEq)]
+#[derive(Clone, Debug)]
 // CAUTION: we rely on the fact that `Thunk` has the same layout as `NickelValue` (we transmute
 // them freely). It's useful to allow zero-cost conversion between `&NickelValue` and `&Thunk`. Do
 // not change the representation of `Thunk` lightly. Doing so without properly adapting the rest of
@@ -675,6 +675,18 @@ impl Thunk {
 impl From<Thunk> for NickelValue {
     fn from(thunk: Thunk) -> Self {
         thunk.0
+    }
+}
+
+// Thunks are compared physically. The derived implementation compared the wrapped `NickelValue`s,
+// whose `PartialEq` implementation, for thunk content, calls back `Thunk::eq` on the very same
+// thunks: any comparison of two thunks (for example through `Label::arg_idx` when user code
+// evaluates `label == label` inside a custom contract) recursed until the native stack overflowed.
+// A structural comparison of the thunks' data isn't an option either, since closures can be
+// cyclic (a thunk's environment may reach the thunk itself).
+impl PartialEq for Thunk {
+    fn eq(&self, other: &Self) -> bool {
+        Thunk::ptr_eq(self, other)
     }
 }
 
